@@ -75,7 +75,7 @@ def run(ck, prop, stream, families_note, variants=None, judge=None, theorems=Non
     ck.cov["checker_cmd"] = "extract && lake build " + " ".join(mods + ["driver"]) + " && #print axioms audit; harness " + stream + " | driver (Spec.run) | compare"
     ck.cov["trusted_base"] = TRUSTED_COMMON + [
         "lean/MajoranaVerif/Spec/Run.lean is the oracle: one instruction at a time in program order; ret or running past the last instruction ends the run",
-        "lean/MajoranaVerif/Model/SeqMachine.lean, Mmu.lean, Mvp3.lean, Mvp4.lean: hand-written cycle-accurate machine models of proc/mvp1..mvp4 (built from regenerated instruction semantics, latencies and constants); the theorems are about them; tied to the Go machines by exact agreement of status, cycle count and final state on every generated case (fields m1..m4 of the driver output)",
+        "lean/MajoranaVerif/Model/SeqMachine.lean, Mmu.lean, Mvp3.lean, Mvp4.lean, Mvp5.lean: hand-written cycle-accurate machine models of proc/mvp1..mvp5 (built from regenerated instruction semantics, latencies and constants); the theorems are about them; tied to the Go machines by exact agreement of status, cycle count and final state on every generated case (fields m1..m5 of the driver output)",
         "Go harness worker pool, tick budget (verif hook Context.VerifTick, K=8·MemoryAccess·(steps+64)) and wall-clock watchdog",
         "known-finding trigger predicates in checklib/cpucheck.py (decidable predicates of the reference run)"]
     if not (okd and okh):
@@ -154,7 +154,7 @@ def run(ck, prop, stream, families_note, variants=None, judge=None, theorems=Non
         j = len(ins) // 2
         ck.cov["samples"] += [{"program": cpu.case_of(ins[j])["prog"], "reference": lean[j][:300], "go_first_config": go[j].split(" @@ ")[1][:300] if " @@ " in go[j] else go[j][:300]}]
     if tie_bad:
-        ck.broken.append(f"correspondence Go MVP-1..MVP-4 vs the Lean machine models differs on {len(tie_bad)} cases; first: {tie_bad[0]}")
+        ck.broken.append(f"correspondence Go MVP-1..MVP-5 vs the Lean machine models differs on {len(tie_bad)} cases; first: {tie_bad[0]}")
     # 3. violations: one per (variant, verdict-kind), shrunk
     seen = set()
     for c, ref, r, v in bad:
